@@ -6,6 +6,7 @@ import (
 	"encoding/binary"
 	"fmt"
 	"io"
+	"math/big"
 	"math/rand/v2"
 	"net"
 	"net/http"
@@ -56,6 +57,8 @@ type muxState struct {
 	kind        string                                          // adapter | nats
 	send        func(d *muxDelivery, opid string, frame []byte) // hand a response frame to the wire now
 	send503     func(d *muxDelivery, subjectSuffix string)
+	hangup      func()
+	cbDelay     time.Duration // time the application's own per-call header callback takes (HTTP)
 	byDseq      map[string]*muxDelivery
 	pending503  map[string][]*muxDelivery
 	rc          *RunCtx
@@ -143,6 +146,7 @@ func muxHarness(rc *RunCtx) {
 		st = NewSimStream(rc, "c0")
 		tr = frugal.NewAdapterTransport(st)
 		st.OnFrame = func(frame []byte) { m.onRequest(frame) }
+		m.hangup = func() { st.PeerEnd(nil) }
 		st.OnDelivered = func(seq int) {
 			if d := m.bySeq[seq]; d != nil {
 				d.deliveredAt = s.Now()
@@ -193,7 +197,22 @@ func muxHarness(rc *RunCtx) {
 		}
 	} else if kind == "http" {
 		hc := &http.Client{Transport: &muxRoundTripper{m: m}}
-		tr = frugal.NewFHTTPTransportBuilder(hc, "http://sim/frugal").Build()
+		bld := frugal.NewFHTTPTransportBuilder(hc, "http://sim/frugal")
+		if tp.Intn("hdrcb", 3) == 2 {
+			// the application computes extra HTTP headers per call (a token lookup, say), which takes time:
+			// that time is part of the call
+			cbDelay := []time.Duration{time.Millisecond, 40 * time.Millisecond, 300 * time.Millisecond}[tp.Intn("hdrcb", 3)]
+			rc.Fault("slow-request-header-callback")
+			m.cbDelay = cbDelay
+			siteCB := simrt.HarnessSite("mux.http-header-callback")
+			bld = bld.WithRequestHeadersFromFContext(func(fc frugal.FContext) map[string]string {
+				simrt.Block(siteCB)
+				time.Sleep(cbDelay)
+				simrt.Yield(siteCB)
+				return map[string]string{"x-app-token": "t"}
+			})
+		}
+		tr = bld.Build()
 	} else {
 		b = NewSimBroker(rc)
 		if tp.Intn("cfg", 4) == 0 {
@@ -374,6 +393,28 @@ func muxHarness(rc *RunCtx) {
 		m.calls = append(m.calls, canary)
 		m.byTag[canary.tag] = canary
 		doCall(canary)
+		if kind == "adapter" {
+			switch tp.Intn("epilogue", 4) {
+			case 2:
+				// the peer reads one more request and hangs up without answering: the call still has to return
+				// by its deadline and leave nothing behind
+				rc.Fault("peer-hangs-up-after-reading-a-request")
+				last := &muxCall{id: len(m.calls), caller: -1, tag: "hangup", timeout: muxTimeouts[tp.Intn("epilogue", len(muxTimeouts))], plan: "hangup"}
+				m.calls = append(m.calls, last)
+				m.byTag[last.tag] = last
+				doCall(last)
+			case 3:
+				// the application closes the transport while a call is waiting for its response
+				rc.Fault("transport-closed-while-a-call-waits")
+				last := &muxCall{id: len(m.calls), caller: -1, tag: "closed-under", timeout: muxTimeouts[tp.Intn("epilogue", len(muxTimeouts))], plan: "closed-under", sendFault: "closed-under"}
+				m.calls = append(m.calls, last)
+				m.byTag[last.tag] = last
+				s.AddEvent("app:close-under-call", last.timeout*time.Duration(1+tp.Intn("epilogue", 8))/10, func() {
+					s.GoRoot("closer", "closer", func() { tr.Close() })
+				})
+				doCall(last)
+			}
+		}
 		tr.Close()
 		finished = true
 	})
@@ -427,13 +468,27 @@ func (m *muxState) onRequest(frame []byte) {
 		dseq := strconv.Itoa(m.evN)
 		m.byDseq[dseq] = d
 		body := EncodeFrame(map[string]string{"_opid": opid, "_cid": "x", "tag": tag, "dseq": dseq}, []byte("resp:"+tag))
+		route := opid
+		if i := strings.Index(opid, "|via:"); i >= 0 {
+			// "<op id written into the frame>|via:<reply-subject suffix>"
+			opid, route = opid[:i], opid[i+5:]
+			body = EncodeFrame(map[string]string{"_opid": opid, "_cid": "x", "tag": tag, "dseq": dseq}, []byte("resp:"+tag))
+		}
 		m.s.AddEvent(fmt.Sprintf("peer:%03d:%s", m.evN, kind), delay, func() {
 			d.handedStep = m.s.Step
-			m.send(d, opid, body)
+			m.send(d, route, body)
 		})
 	}
 	if c.plan == "canary" {
 		respond("answer", c.opid, c.tag, 0, c)
+		return
+	}
+	if c.plan == "hangup" {
+		m.evN++
+		m.s.AddEvent(fmt.Sprintf("peer:%03d:hangup", m.evN), time.Duration(tp.Intn("epilogue", 4))*time.Millisecond, func() { m.hangup() })
+		return
+	}
+	if c.plan == "closed-under" {
 		return
 	}
 	// small random service delay, well inside any timeout
@@ -513,7 +568,16 @@ func (m *muxState) onRequest(frame []byte) {
 	case 4:
 		c.plan = "once+unknown-opid"
 		m.rc.Fault("unknown-opid-frame")
-		respond("unknown", strconv.Itoa(1000000+c.id), "nobody", jitter(), nil)
+		unknown := strconv.Itoa(1000000 + c.id)
+		if v := tp.Intn("opidform", 8); m.kind == "nats" && v >= 3 {
+			// op ids nobody issued that a sloppy parser maps onto THIS call's id (message-oriented transport:
+			// an unparsable op id concerns that one message only)
+			k, _ := strconv.ParseUint(c.opid, 10, 64)
+			wrapped := new(big.Int).Add(new(big.Int).SetUint64(k), new(big.Int).Lsh(big.NewInt(1), 64)).String()
+			unknown = []string{wrapped, "+" + c.opid, c.opid + " ", "-" + c.opid, c.opid + ".0"}[v-3] + "|via:" + c.opid
+			m.rc.Fault("never-issued-opid-that-a-sloppy-parser-maps-onto-a-pending-call")
+		}
+		respond("unknown", unknown, "nobody", jitter(), nil)
 		respond("answer", c.opid, c.tag, jitter(), c)
 	case 5:
 		c.plan = "once+stale"
@@ -555,7 +619,9 @@ func (m *muxState) check(tr frugal.FTransport, canary *muxCall, finished bool, b
 		if stalled {
 			rc.Probe("call-overlapping-a-stalled-task")
 		}
-		if el > c.timeout+allowance && !stalled {
+		// (a synchronous callback of the application cannot be interrupted: the call returns when both the
+		// deadline and the callback are over - what must not happen is that the two add up)
+		if el > max(c.timeout, m.cbDelay)+allowance && !stalled {
 			rc.Violate("C13", "late-return", m.kind, fmt.Sprintf("call %d returned after %v, timeout %v (err=%v)", c.id, el, c.timeout, c.err))
 		}
 		// was a response for this call fully readable strictly before its deadline?
